@@ -451,12 +451,16 @@ def run_shard(ctx):
   quick = ctx.tier == 'quick'
   B = ctx.budget_s
   my_gp = [t for t in range(N_GP_TASKS[ctx.tier]) if t % ctx.nshards == ctx.shard]
+  if os.environ.get('VV_C14_NO_GP'):      # development only: the run ends INCONCLUSIVE
+    my_gp = []
   # ---- fresh process: started first, collected after phase 1 -----------------------
   # (cases are a function of (seed, index): the child gets this shard's first K)
   crng = ctx.rng(ctx.shard, 'child')
   child_cases = my_cheap_cases(ctx, 30 if quick else 400)
   handle = None
-  if not (quick and my_gp and ctx.nshards >= 8):
+  # quick tier: every other GP-free shard starts a child (the GP shards start
+  # their own); fewer processes, same monitors
+  if not quick or ctx.nshards < 8 or (not my_gp and ctx.shard % 2 == 1):
     handle = child_start(child_cases, crng.choice([1, 12345, 4294967295]),
                          crng.getrandbits(20))
   # ---- phase 0: GP tasks ------------------------------------------------------------
